@@ -95,7 +95,7 @@ macro_rules! impl_dual2_n {
 
             #[getter]
             pub fn get_second_derivative(&self) -> Option<[[f64; $n]; $n]> {
-                self.0.v2.0.as_ref().map(|v2| v2.data.0)
+                self.0.v2.0.as_ref().map(|v2| v2.transpose().data.0)
             }
         }
 
